@@ -16,6 +16,7 @@ Oracle     : the returned multiset equals the content of SOME pointer version be
 """
 from __future__ import annotations
 
+import json
 import random as _r
 from typing import Any, Dict, List, Optional, Tuple
 
@@ -155,6 +156,31 @@ def between_steps_chooser(reader: str, r: int, writers: List[str]):
     return factory
 
 
+def alternate_chooser(writer: str, reader: str):
+    """One step of the writer, then one whole read call of the reader, and so on: the reader observes the table after
+    every single storage operation of the writer."""
+    def factory(_sc: S.Scheduler):
+        st = {"turn": "w", "started": False}
+
+        def choose(enabled: List[str], s: S.Scheduler) -> Optional[str]:
+            if st["turn"] == "w":
+                st["turn"] = "r"
+                st["started"] = False
+                if writer in enabled:
+                    return writer
+            if reader in enabled:
+                op, _p = s.actors[reader].pending or ("", "")
+                if op == "ReadStart" and st["started"] and writer in enabled:
+                    st["turn"] = "w"
+                    return choose(enabled, s)
+                st["started"] = True
+                return reader
+            st["turn"] = "w"
+            return writer if writer in enabled else (enabled[0] if enabled else None)
+        return choose
+    return factory
+
+
 def _injector_for(op: Dict[str, Any]):
     if op.get("read_fault"):
         cls, nth, kind = op["read_fault"]
@@ -174,9 +200,13 @@ def analyse(case: Dict[str, Any], res: P.CaseResult, readers: List[int]) -> Tupl
         return [f"deadlock: {res.deadlock}"], bad
     flips_before = 0
     per_reader: Dict[str, Dict[str, Any]] = {}
-    for e in res.log:
+    by_pointer = case.get("track_states") == "pointer"
+    flip_at = list(getattr(res, "flip_log_index", []) or [])
+    for li, e in enumerate(res.log):
         a = e["actor"]
-        if e["op"] in ("write_file", "write_file_cas") and P.path_class(e["path"]) == "hint" and e["result"] == "ok":
+        if by_pointer:
+            flips_before = sum(1 for x in flip_at if x <= li)
+        elif e["op"] in ("write_file", "write_file_cas") and P.path_class(e["path"]) == "hint" and e["result"] == "ok":
             flips_before += 1
         st = per_reader.setdefault(a, {"calls": [], "cur": None})
         if e["op"] == "ReadStart":
@@ -213,7 +243,8 @@ def analyse(case: Dict[str, Any], res: P.CaseResult, readers: List[int]) -> Tupl
             if faulted:
                 STATS["faulted_reader_calls_returned"] = STATS.get("faulted_reader_calls_returned", 0) + 1
             states = res.states
-            want = lambda k: (len(states[k]["rows"]) if call["api"] == "row_count" else states[k]["rows"]) if k < len(states) else None
+            want = lambda k: ((len(states[k]["rows"]) if call["api"] == "row_count" else states[k]["rows"])
+                              if k < len(states) and states[k]["rows"] is not None else None)
             lo, hi = call["start"], call["end"]
             STATS["calls"] += 1
             STATS["calls_spanning_a_flip"] += 1 if hi > lo else 0
@@ -307,6 +338,29 @@ def run(ctx) -> None:
                     ctx.violation(f"reader-between-steps:{api}", v,
                                   {"case": c01._case_json(case), "deviations": [("between", rname, r, wnames)], "schedule": res.schedule})
                 bad_all.extend(bad)
+    # object store with conditional writes: the response to the pointer PUT is LOST (applied, then a timeout / 5xx on the
+    # way back) or the request fails before it is applied; the reader reads after every storage operation of the writer
+    for ai, api in enumerate(APIS):
+        if quick and ai % 3 != 0:
+            continue
+        for sf in ({"when": "after", "exc": "timeout"}, {"when": "after", "exc": "500"}, {"when": "before", "exc": "500"}, None):
+            if quick and sf is not None and sf["when"] == "before" and ai:
+                continue
+            writers = [WRITER_SETS[1][0]]
+            ops = writers + [{"kind": "read", "apis": [api] * 160, "tolerate_errors": False}]
+            case = {"ops": ops, "clock": "tick", "topology": "separate", "yield_filter": reader_filter, "track_states": "pointer",
+                    "backend": "s3cas", "lock": "grant_all"}
+            if sf is not None:
+                case["s3_fault"] = dict(sf, op="put_object", cls="hint", nth=1)
+            res = P.run_case(ctx.scratch, c01._fix_case(case), alternate_chooser("A0", "A1"), tag="c02s")
+            total += 1
+            ctx.count(1, ("s3", api, json.dumps(sf, sort_keys=True)))
+            viol, bad = analyse(case, res, [1])
+            for v in viol:
+                ctx.violation(f"reader-s3-lost-response:{api}", v,
+                              {"case": c01._case_json(case), "deviations": [("alternate", "A0", "A1")], "schedule": res.schedule})
+            # the model comparison (single pointer resolution) applies unchanged
+            bad_all.extend(bad)
     # faulted readers: one transient failure of the reader's nth read of each class of file while writers commit / fail
     fw_sets = [WRITER_SETS[1], WRITER_SETS[5], WRITER_SETS[0]]
     for wi, writers in enumerate(fw_sets if not quick else fw_sets[:2]):
@@ -368,7 +422,9 @@ def replay(ctx, payload) -> int:
         return 2
     case["yield_filter"] = reader_filter
     dev = c.get("deviations", [])
-    if dev and dev[0][0] == "between":
+    if dev and dev[0][0] == "alternate":
+        res = P.run_case(ctx.scratch, c01._fix_case(case), alternate_chooser(dev[0][1], dev[0][2]), tag="replay")
+    elif dev and dev[0][0] == "between":
         res = P.run_case(ctx.scratch, c01._fix_case(case), between_steps_chooser(dev[0][1], dev[0][2], dev[0][3]), tag="replay")
     elif dev and dev[0][0] == "window":
         res = P.run_case(ctx.scratch, c01._fix_case(case), window_chooser(f"A{dev[0][1]}", f"A{len(case['ops']) - 1}", dev[0][2]), tag="replay",
